@@ -65,6 +65,8 @@ type FuncContract struct {
 	EntryLets   [][2]string         // name, expression: evaluated once in the entry state
 	FrameProps  []string            // properties owning the frame obligations
 	FnParams    map[string][]string // function-typed parameter -> heaps it may write
+	FnType      string              // non-empty: contract of every function value of this signature
+	ParamNames  []string            // for fntype contracts: names of the parameters
 }
 
 type Lemma struct {
@@ -146,6 +148,9 @@ func loadContracts(dir string) (*Contracts, error) {
 					return nil, fmt.Errorf("%s:%d: duplicate contract for %s", fn, i+1, name)
 				}
 				cur = &FuncContract{Name: name, Loops: map[int][]*Clause{}, File: filepath.Base(fn), Line: i + 1, Vars: map[string]string{}}
+				if strings.HasPrefix(name, "fntype:") {
+					cur.FnType = strings.TrimSpace(strings.TrimPrefix(name, "fntype:"))
+				}
 				cs.Funcs[name] = cur
 				cs.Order = append(cs.Order, name)
 			case "replacer":
@@ -202,6 +207,8 @@ func loadContracts(dir string) (*Contracts, error) {
 					cur.Props = splitProps(rest)
 				case "safety":
 					cur.SafetyProps = splitProps(rest)
+				case "params":
+					cur.ParamNames = strings.Fields(rest)
 				case "frameprops":
 					cur.FrameProps = splitProps(rest)
 				case "fnparam":
@@ -262,7 +269,11 @@ func loadContracts(dir string) (*Contracts, error) {
 				case "loop":
 					ns, r := splitWord(rest)
 					var n int
-					fmt.Sscanf(ns, "%d", &n)
+					if ns == "*" {
+						n = 0 // applies to every loop of the function
+					} else {
+						fmt.Sscanf(ns, "%d", &n)
+					}
 					kind, r2 := splitWord(strings.TrimSpace(r))
 					c := &Clause{Kind: kind, File: filepath.Base(fn), Line: i + 1, Loop: n}
 					r2 = strings.TrimSpace(r2)
